@@ -23,7 +23,9 @@ invariance under renumbering and dual, consistency along covers, soundness of `Y
 import DSymVerif.Model.Euclidicity
 import DSymVerif.Proofs.EuclidicityTableFacts
 import DSymVerif.Proofs.EuclidicityTableReach
+import DSymVerif.Proofs.EuclidicityString
 import DSymVerif.Spec.C17
+import DSymVerif.Props.C15
 
 namespace DSymVerif.C17
 open DSymVerif DSymVerif.Euc
@@ -171,6 +173,75 @@ example :
 
 /-- the cubic key of the generated tables is the symbol with one chamber -/
 theorem cubicKey_value : Tables.cubicKey = "<1.1:1 3:1,1,1,1:4,3,4>" := by decide
+
+/-! ### 3. what a `Yes` of the model carries -/
+
+/-- the facts `f` agree with what the models compute for the symbol `s` on the first two tests of
+    `is_euclidean` (the later facts, behind `simplify`, are unconstrained) -/
+def FactsOf (s : DS.DSymData) (f : Facts) : Prop :=
+  ∃ inv, orbifoldInvariant s = .ok inv ∧ f.invInTable = inInvariantTable inv ∧
+    (f.invInTable = true → ∃ o, D3.pseudoToroidalCover s = .ok o ∧ f.coverFound = o.isSome)
+
+/-- the verdict the model of the part before `simplify` announces is the cascade's verdict on
+    any facts that agree with the models -/
+theorem prefix_verdict_is_cascade (s : DS.DSymData) (f : Facts) (hf : FactsOf s f)
+    (v : Verdict) (c : Option DS.DSymData) (h : isEuclideanPrefix s = .ok (some v, c)) :
+    decideVerdict f = v := by
+  obtain ⟨inv, hinv, h1, h2⟩ := hf
+  unfold isEuclideanPrefix at h
+  rw [hinv] at h
+  simp only at h
+  split at h
+  · rename_i hnot
+    cases h
+    have : f.invInTable = false := by rw [h1]; simpa using hnot
+    exact (decide_reasons f).1.mpr this
+  · rename_i hin
+    have hin' : f.invInTable = true := by rw [h1]; simpa using hin
+    obtain ⟨o, ho, hc⟩ := h2 hin'
+    rw [ho] at h
+    cases o with
+    | none =>
+      cases h
+      exact (decide_reasons f).2.1.mpr ⟨hin', by rw [hc]; rfl⟩
+    | some c' => cases h
+
+/-- **yes_carries_certificate** (`decide_yes_iff` on the model's facts).  If the facts agree with
+    the models and the cascade says `Yes`, then — for an input with valid tables whose oriented
+    cover has a `GroupOK` presentation — the model of `orbifold_invariant` returned a string of
+    the table (a well-formed entry with reachable invariant fields), the model of
+    `pseudo_toroidal_cover` returned a cover `cov`, and `cov` carries the proved consequences of
+    Props/C15: it is `cover_for_table` of the oriented cover and a valid candidate table, a
+    covering of the oriented cover and of the input (`C15.CoverFacts`), and the subgroup selected
+    — the stabiliser of row 0, of index `rows(t)`, isomorphic to the presentation `stabilizer`
+    returned — has abelian invariants `[0,0,0]` (`C15.SubgroupFacts`).  The two remaining facts of
+    a `Yes` (`simplify` succeeded, canonical key of the cubic tiling) are not modelled. -/
+theorem yes_carries_certificate (s : DS.DSymData) (f : Facts) (hf : FactsOf s f)
+    (hs : DS.ValidTables s) (hsz : 1 ≤ s.size)
+    (hG : ∀ oc fg, DS.orientedCover s = .ok oc → FG.fundamentalGroup oc = .ok fg → D3.GroupOK fg)
+    (hyes : decideVerdict f = .yes) :
+    f.simplifyOk = true ∧ f.keyIsCubic = true ∧
+    ∃ inv cov, orbifoldInvariant s = .ok inv ∧ inv ∈ Tables.euclideanInvariants ∧
+      Tab.wellFormed inv = true ∧ Tab.reachable inv = true ∧
+      D3.pseudoToroidalCover s = .ok (some cov) ∧
+      C15.CoverFacts s cov ∧ C15.SubgroupFacts s cov := by
+  obtain ⟨h1, h2, h3, h4⟩ := (decide_yes_iff f).mp hyes
+  obtain ⟨inv, hinv, e1, e2⟩ := hf
+  obtain ⟨o, ho, hc⟩ := e2 h1
+  rw [h2] at hc
+  cases o with
+  | none => cases hc
+  | some cov =>
+    have hmem : inv ∈ Tables.euclideanInvariants := by
+      rw [e1] at h1
+      unfold inInvariantTable at h1
+      exact List.contains_iff_mem.mp h1
+    have hcert := C15.ptc_certificate s cov hs hsz hG ho
+    rcases Tab.token_ok inv hmem with hw | hstray
+    · exact ⟨h3, h4, inv, cov, hinv, hmem, hw, Tab.token_reachable inv hmem, ho, hcert.1, hcert.2⟩
+    · -- a stray comment token is never an output of `orbifold_invariant`
+      exfalso
+      exact stray_not_invariant s inv hinv hstray
 
 /-! ### open (not theorems): the statements, for the record -/
 
